@@ -176,7 +176,31 @@ def _coq_files():
     return sorted(out)
 
 
+import contextlib, fcntl
+
+
+@contextlib.contextmanager
+def locked(name, shared=False):
+    """Advisory lock under /verif/build: checks of different properties may run at the same time and share
+    the compiled Coq files and model runners.  'coq' is taken shared by whoever reads .vo files and
+    exclusive by whoever rewrites the shared ones."""
+    os.makedirs(BUILD, exist_ok=True)
+    f = open(os.path.join(BUILD, ".%s.lock" % name), "w")
+    try:
+        fcntl.flock(f, fcntl.LOCK_SH if shared else fcntl.LOCK_EX)
+        yield
+    finally:
+        fcntl.flock(f, fcntl.LOCK_UN)
+        f.close()
+
+
 def coq_build(target_v):
+    """See _coq_build; serialised against other checks."""
+    with locked("coq"):
+        return _coq_build(target_v)
+
+
+def _coq_build(target_v):
     """Compile [target_v] (path relative to /verif/coq) and everything it depends on,
     re-compiling whatever is stale.  Independent of _CoqProject/Makefile so that it
     always reflects the .v files on disk.  Returns (ok, log)."""
@@ -233,7 +257,8 @@ def coq_obligations(prop):
         cmds.append("coqc -Q . UV %s" % rel)
         out, ok = "", False
         if ok_deps:
-            r = sh(["timeout", "1800", "coqc", "-Q", ".", "UV", rel], cwd=COQ)
+            with locked("prop_" + os.path.basename(rel)), locked("coq", shared=True):
+                r = sh(["timeout", "1800", "coqc", "-Q", ".", "UV", rel], cwd=COQ)
             ok = r.returncode == 0
             out = r.stdout
         chunks = re.split(r"(?=Closed under the global context|Axioms:)", out)
@@ -264,12 +289,15 @@ def model_bin(prop):
             os.path.join(COQ, "Extract", "Extract_%s.v" % prop)]
     for root, _, files in os.walk(os.path.join(COQ, "Model")):
         deps += [os.path.join(root, f) for f in files if f.endswith(".v")]
-    stale = not os.path.exists(exe) or any(
-        os.path.exists(d) and os.path.getmtime(d) > os.path.getmtime(exe) for d in deps)
-    if stale:
-        r = sh([os.path.join(VERIF, "bin", "build_model"), pid])
-        if r.returncode != 0:
-            raise BuildError("model runner for %s does not build:\n%s" % (prop, r.stdout[-3000:]))
+    def is_stale():
+        return not os.path.exists(exe) or any(
+            os.path.exists(d) and os.path.getmtime(d) > os.path.getmtime(exe) for d in deps)
+    if is_stale():
+        with locked("model_" + pid):
+            if is_stale():      # another check may have built it while we waited
+                r = sh([os.path.join(VERIF, "bin", "build_model"), pid])
+                if r.returncode != 0:
+                    raise BuildError("model runner for %s does not build:\n%s" % (prop, r.stdout[-3000:]))
     return exe
 
 
@@ -516,9 +544,10 @@ def _cli():
             rel = mod.replace(".", "/") + ".v"
             ok, log = coq_build(rel)
             if ok:
-                r = sh(["timeout", "1800", "coqc", "-Q", ".", "UV", rel], cwd=COQ) \
-                    if (not os.path.exists(os.path.join(COQ, rel + "o")) or
-                        os.path.getmtime(os.path.join(COQ, rel + "o")) < os.path.getmtime(os.path.join(COQ, rel))) else None
+                with locked("coq"):
+                    r = sh(["timeout", "1800", "coqc", "-Q", ".", "UV", rel], cwd=COQ) \
+                        if (not os.path.exists(os.path.join(COQ, rel + "o")) or
+                            os.path.getmtime(os.path.join(COQ, rel + "o")) < os.path.getmtime(os.path.join(COQ, rel))) else None
                 if r is not None and r.returncode != 0:
                     print(r.stdout[-2000:])
                     sys.exit(1)
